@@ -32,7 +32,7 @@ def is_block(k):
 
 
 def is_textlike(k):
-    return k[0] in ("T", "N", "NS", "H")
+    return k[0] in ("T", "TS", "N", "NS", "H")
 
 
 def attr_str(attrs):
@@ -59,7 +59,7 @@ def close_(n):
 def leaf(k, parent):
     kind = k[0]
     raw = parent is not None and parent[1] in RAW
-    if kind == "T":
+    if kind in ("T", "TS"):
         return k[1] if raw else canon_text_escape(k[1])
     if kind in ("N", "NS"):
         return num_text(k) if raw else canon_text_escape(num_text(k))
